@@ -15,6 +15,7 @@ CONSTANTS
   DupWrite = TRUE
   WriterGuard = TRUE
   Defensive = FALSE
+  EnvOn = TRUE
 INIT Init
 NEXT Next
 CHECK_DEADLOCK FALSE
